@@ -542,7 +542,14 @@ func checkC07(e *core.Env) {
 				if first.Err == nil && (cut < fb.msgEnds[0] || !sameMsg(first.Msg, msgs[0])) {
 					e.Violate(sig+"/fabricated", fmt.Sprintf("request body cut at offset %d of a %d-byte first frame: the handler was given a message", cut, fb.msgEnds[0]), w)
 				}
-				if first.Err == nil && !(cut == fb.msgEnds[0] && end.err == io.EOF) {
+				laterError := false
+				for _, ev := range hr[1:] {
+					if ev.Err != nil && ev.Err != io.EOF {
+						laterError = true
+					}
+				}
+				// (the unclean end may be reported with the message or by the receive that follows it)
+				if first.Err == nil && !laterError && !(cut == fb.msgEnds[0] && end.err == io.EOF) {
 					e.Violate(sig+"/unclean-end-accepted", fmt.Sprintf("the request body is one frame of %d bytes followed by %d more bytes and ends with %s: the handler was handed the message as if the request had ended cleanly after it", fb.msgEnds[0], cut-fb.msgEnds[0], end.name), w)
 				}
 				if cut > 0 && cut < fb.msgEnds[0] && first.Err == io.EOF {
